@@ -8,3 +8,11 @@ package roi
 //@   prop C02
 //@   requires d != nil && d.Data != nil
 //@   ensures result == ((tolower(action) == "post" || tolower(action) == "put" || tolower(action) == "delete") && !(endpoint == "ptquery" && tolower(action) == "post"))
+
+// ---- no request leaves a lock behind (C20: a malformed request must not wedge the server) ----
+
+//@ func Data.PutSpans
+//@   prop C20
+//@   safety_off
+//@   lockbalance
+//@   modifies *
